@@ -284,3 +284,38 @@ PROPS["C13"] = {
              "calls on >= 2 objects; distinct by history (incomplete-manager combinations counted separately)"),
     "assumptions": ["an object is always released with the manager that built it"],
 }
+
+PROPS["C19"] = {
+    "level": "exploration",
+    "technique": "differential property-based testing (rapidcheck): the same generated transcript through the char and the wchar_t API, exact-size wide buffers under ASan",
+    "level_text": ("One generated history - URI operations (parse incl. invalid texts with error offsets, resolve, create reference, normalise, make owner, equals, mask query, recomposition with "
+                   "arbitrary capacities) plus escape, unescape, dissect/compose (required size, three capacities, malloc variant) and the four filename conversions - is executed through both "
+                   "character types; the two transcripts (codes, narrowed texts, component snapshots, error offsets, counts, required sizes, chars written) must be identical. Every wide buffer is an "
+                   "exact-size heap block counted in characters, so bytes-vs-characters mistakes surface as ASan reports or as truncated/garbled wide results."),
+    "level_note": "Trusted: the narrow API as reference (its own semantics are checked by C01-C18), ASan.",
+    "quick": {"cases": 25000},
+    "thorough": {"cases": 600000, "ceiling_s": 3000},
+    "rule": ("history of 2 correlated parses + 1..6 URI steps with observers + 1..5 extra steps (escape, unescape, query, filename, toString-with-capacity, possibly invalid parse) over code points 1..255; "
+             "non-trivial = >= 3 ops and at least one produced text of length >= 8; each of the ten function groups is exercised in > 15% of transcripts (histogram); distinct by transcript"),
+    "assumptions": ["inputs are restricted to code points 1..255 (representable in both types)"],
+}
+
+PROPS["C20"] = {
+    "level": "exploration",
+    "technique": "property-based generation of multi-threaded workloads: differential against single-threaded results, ThreadSanitizer (happens-before race detection) on the same workloads, and a checksum invariant over the shared object's writable segments plus a scan of writable symbols in the compiled objects",
+    "level_text": ("Generated workloads share one parsed base URI, one source URI, one reference, a query list and texts among 2..8 threads whose op lists cover every public call taking those inputs as const "
+                   "(resolve, create reference, equals, toString, charsRequired, mask query, compose, escape, filename) and calls on thread-private objects (parse, normalise, make owner, dissect); every "
+                   "result must equal the single-threaded result and the shared inputs must stay bit-for-bit unchanged. The same workloads run in a ThreadSanitizer build where any race report is a "
+                   "violation: happens-before analysis flags unsynchronised conflicting accesses whenever both execute, independent of the interleaving hit. 'No writable global': the writable non-RELRO "
+                   "segments of the plain shared object are checksummed before the first call and after every workload, and every object symbol in .data/.bss/COMMON of the compiled objects must be "
+                   "on an allow list (defaultMemoryManager: initialised at load time, never written)."),
+    "level_note": "Trusted: ThreadSanitizer, the ELF program headers. Workloads are explored, interleavings are not enumerated; races with the C library and liveness are out of scope. defaultMemoryManager sits in .data but is never written (checked by the checksum).",
+    "bins": ["build/bin/c20", "build/bin/c20_tsan"],
+    "extra_targets": ["build/plain/liburi_plain.so", "build/plain/liburi.a"],
+    "symbol_scan": {"allow": ["defaultMemoryManager"]},
+    "quick": {"cases": [1500, 1500], "workers": 8},
+    "thorough": {"cases": [40000, 40000], "ceiling_s": 3000},
+    "rule": ("workload = shared inputs from correlated generators + 2..8 threads x 3..10 ops (13 op kinds) x 3 repetitions with generated yield/spin points, char or wchar_t API; run once under ASan with the "
+             "writable-segment checksum and once under TSan. Non-trivial = >= 2 threads and >= 2 ops on shared operands; distinct by workload"),
+    "assumptions": ["threads only write to their own outputs (the statement's precondition)"],
+}
